@@ -53,6 +53,39 @@ pub enum Outcome {
 	Failed(String),
 }
 
+/// Every view a `BatchResponse` offers of its entries (counters, `len`, `iter`, `ok`, `into_ok`, `into_iter`), compared
+/// with one another: Err(description) when two of them disagree, else the entries.
+pub fn batch_views<R: Clone + std::fmt::Debug + PartialEq>(r: jsonrpsee_core::client::BatchResponse<'_, R>) -> Result<Vec<Result<R, (i32, String)>>, String> {
+	let flat = |e: &jsonrpsee_types::ErrorObject<'_>| (e.code(), e.message().to_string());
+	let (ok, failed, len) = (r.num_successful_calls(), r.num_failed_calls(), r.len());
+	let by_ref: Vec<Result<R, (i32, String)>> = r.iter().map(|e| e.clone().map_err(|e| flat(&e))).collect();
+	let ok_view: Result<Vec<R>, Vec<(i32, String)>> = match r.ok() {
+		Ok(it) => Ok(it.cloned().collect()),
+		Err(it) => Err(it.map(flat).collect()),
+	};
+	let into_ok_view: Result<Vec<R>, Vec<(i32, String)>> = match r.clone().into_ok() {
+		Ok(it) => Ok(it.collect()),
+		Err(it) => Err(it.map(|e| flat(&e)).collect()),
+	};
+	let entries: Vec<Result<R, (i32, String)>> = r.into_iter().map(|e| e.map_err(|e| flat(&e))).collect();
+	let ok2 = entries.iter().filter(|e| e.is_ok()).count();
+	if ok != ok2 || failed != entries.len() - ok2 || len != entries.len() {
+		return Err(format!("num_successful_calls={ok} num_failed_calls={failed} len={len} entries={entries:?}"));
+	}
+	if by_ref != entries {
+		return Err(format!("iter() = {by_ref:?}, into_iter() = {entries:?}"));
+	}
+	// ok() / into_ok(): all values if no entry failed, otherwise the errors - never a list of some of the values
+	let want: Result<Vec<R>, Vec<(i32, String)>> = if ok2 == entries.len() { Ok(entries.iter().filter_map(|e| e.clone().ok()).collect()) } else { Err(entries.iter().filter_map(|e| e.clone().err()).collect()) };
+	if ok_view != want {
+		return Err(format!("ok() = {ok_view:?} for entries {entries:?}"));
+	}
+	if into_ok_view != want {
+		return Err(format!("into_ok() = {into_ok_view:?} for entries {entries:?}"));
+	}
+	Ok(entries)
+}
+
 pub fn err_outcome(e: Error) -> Outcome {
 	match e {
 		Error::Call(e) => Outcome::CallErr(e.code(), e.message().to_string()),
@@ -167,13 +200,10 @@ impl World {
 			}
 			match c.batch_request::<Value>(b).await {
 				Ok(r) => {
-					let (ok, failed, len) = (r.num_successful_calls(), r.num_failed_calls(), r.len());
-					let entries: Vec<Result<Value, (i32, String)>> = r.into_iter().map(|e| e.map_err(|e| (e.code(), e.message().to_string()))).collect();
-					let ok2 = entries.iter().filter(|e| e.is_ok()).count();
-					if ok != ok2 || failed != entries.len() - ok2 || len != entries.len() {
-						return Outcome::BatchCounts(format!("num_successful_calls={ok} num_failed_calls={failed} len={len} entries={entries:?}"));
+					match batch_views(r) {
+						Ok(entries) => Outcome::BatchOk(entries),
+						Err(d) => Outcome::BatchCounts(d),
 					}
-					Outcome::BatchOk(entries)
 				}
 				Err(e) => err_outcome(e),
 			}
